@@ -1,7 +1,7 @@
 """C02 — forced exits are nested: reverse enter order, children before parent."""
 from harness.drivers import sched_common as sc
 from harness.drivers import c01
-from harness.drivers.sched_common import (COQ_REQUIRES, COQ_CHECK, COQ_CASE_TYPE, COQ_BRANCHES, COQ_HEADER, SHARD, MODELLED,
+from harness.drivers.sched_common import (COQ_REQUIRES, COQ_CHECK, COQ_CASE_TYPE, COQ_BRANCHES, COQ_HEADER, SHARD, CASE_TIMEOUT, MODELLED,
                                           run_impl, to_coq, shrink, distribution)
 
 PROP = "C02"
@@ -102,6 +102,9 @@ def oracle(case, obs):
 
 
 def classify(case, obs, why):
+    # D43 (see C01): a doer extended into a DoDoer that its own enter step removes is never exited
+    if "entered but not exited" in why or "after do() ended" in why:
+        return c01.classify(case, obs, "life: " + why)
     # D3: a doer added by extend() while not-yet-run deeds remain in the current pass is placed before
     # them in all later passes, so run order and forced-exit order differ from enter order
     if "reverse enter order" not in why:
